@@ -97,6 +97,15 @@ func genC01(r *rng, tier string, emit func(string)) {
 	if tier == "thorough" {
 		n = 800
 	}
+	// fresh randomness, delivered in pieces of 1 / 3 / 7 / 39 bytes or whole: no r twice
+	for _, chunk := range []int{1, 1, 3, 7, 39, 0} {
+		k := r.sm2key()
+		cnt := 80
+		if tier == "thorough" {
+			cnt = 600
+		}
+		emit(fmt.Sprintf("sm2fresh %s %s %d %d %d", bhex(k.d), hx(r.bytes(1+r.intn(40))), chunk, r.intn(1<<30), cnt))
+	}
 	c := sm2.P256Sm2()
 	for i := 0; i < n; i++ {
 		k := r.sm2key()
@@ -224,7 +233,7 @@ func genC02(r *rng, tier string, emit func(string)) {
 		rnd, _ := unhx(row[4])
 		for _, mode := range []string{"c1c3c2", "c1c2c3", "asn1"} {
 			msg := r.bytes(1 + r.intn(70))
-			emit(fmt.Sprintf("sm2enc %s %s %s %s %s", bhex(x), bhex(y), mode, hx(msg), hx(rnd)))
+			emit(fmt.Sprintf("sm2enc %s %s %s %s %s %s", bhex(x), bhex(y), mode, hx(msg), hx(rnd), bhex(d)))
 			var ct []byte
 			var err error
 			if mode == "asn1" {
@@ -254,7 +263,7 @@ func genC02(r *rng, tier string, emit func(string)) {
 		msg := r.bytes(l)
 		rnd := r.bytes(80)
 		mode := []string{"c1c3c2", "c1c2c3", "asn1"}[i%3]
-		emit(fmt.Sprintf("sm2enc %s %s %s %s %s", bhex(k.x), bhex(k.y), mode, hx(msg), hx(rnd)))
+		emit(fmt.Sprintf("sm2enc %s %s %s %s %s %s", bhex(k.x), bhex(k.y), mode, hx(msg), hx(rnd), bhex(k.d)))
 		if i%10 == 0 {
 			emit(fmt.Sprintf("sm2enc %s %s %s - %s", bhex(k.x), bhex(k.y), mode, hx(rnd))) // empty plaintext
 		}
@@ -309,7 +318,7 @@ func genC02(r *rng, tier string, emit func(string)) {
 				kk.Mod(kk, nm1).Add(kk, big.NewInt(1))
 				x2, y2 := sm2.P256Sm2().ScalarMult(k.x, k.y, kk.Bytes())
 				if len(x2.Bytes()) < 32 || len(y2.Bytes()) < 32 {
-					emit(fmt.Sprintf("sm2enc %s %s %s %s %s", bhex(k.x), bhex(k.y), mode, hx(msg), hx(rnd2)))
+					emit(fmt.Sprintf("sm2enc %s %s %s %s %s %s", bhex(k.x), bhex(k.y), mode, hx(msg), hx(rnd2), bhex(k.d)))
 					var ct2 []byte
 					if mode == "asn1" {
 						ct2, err = sm2.EncryptAsn1(pub, msg, &fixedRand{append([]byte{}, rnd2...)})
@@ -337,7 +346,7 @@ func genC02(r *rng, tier string, emit func(string)) {
 					continue
 				}
 				one := []byte{byte(1 + r.intn(255))}
-				emit(fmt.Sprintf("sm2enc %s %s %s %s %s", bhex(k.x), bhex(k.y), mode, hx(one), hx(rnd2)))
+				emit(fmt.Sprintf("sm2enc %s %s %s %s %s %s", bhex(k.x), bhex(k.y), mode, hx(one), hx(rnd2), bhex(k.d)))
 				var ct2 []byte
 				if mode == "asn1" {
 					ct2, err = sm2.EncryptAsn1(pub, one, &fixedRand{append([]byte{}, rnd2...)})
